@@ -407,15 +407,19 @@ SIMPLE_SETTERS = {  # setter -> field it must write (frozen table: names are the
 REBUILD_SETTERS = {"set_key_builder": "key_to_hash", "set_coster": "coster", "set_update_validator": "update_validator", "set_callback": "callback", "set_hasher": "hasher"}
 
 
-def check_builder_plumbing(rep, fl, rule="R20.5", skip_sites=()):
-    """skip_sites: instance sites that are not a necessary condition of the property being checked."""
-    if skip_sites:
+def check_builder_plumbing(rep, fl, rule="R20.5", skip_sites=(), only_sites=None):
+    """skip_sites / only_sites: instance sites that are not / the only ones that are a necessary condition of the
+    property being checked."""
+    if skip_sites or only_sites is not None:
         from framework import Report
         tmp = Report(rep.prop, rep.tier)
         try:
             check_builder_plumbing(tmp, fl, rule)
         finally:
-            rep.instances.extend(i for i in tmp.instances if i.site not in skip_sites or i.verdict == "anchor-missing")
+            import fnmatch
+            hit = lambda site, pats: any(fnmatch.fnmatchcase(site, p_) for p_ in pats)
+            rep.instances.extend(i for i in tmp.instances if i.verdict == "anchor-missing" or
+                                 (not hit(i.site, skip_sites) and (only_sites is None or hit(i.site, only_sites))))
             rep.notes.extend(tmp.notes)
         return
     facts = fl.facts
@@ -445,7 +449,7 @@ def check_builder_plumbing(rep, fl, rule="R20.5", skip_sites=()):
         b = facts.body(CORE + "::" + m)
         ags = agg_nodes(b, CORE)
         ok = len(ags) == 1
-        bad = []
+        rep.check(ok, rule, fl, b, m, "%s rebuilds the builder with one struct literal" % m, "%s does not rebuild the builder with one struct literal" % m)
         if ok:
             f = agg_fields(ags[0][3])
             param = V(b.local_name.get(2, "arg2"))
@@ -457,10 +461,9 @@ def check_builder_plumbing(rep, fl, rule="R20.5", skip_sites=()):
                     good = v is not None
                 else:
                     good = v == norm(F(V("self"), name))
-                if not good:
-                    bad.append("%s = %s" % (name, show(v) if v is not None else "?"))
-        rep.check(ok and not bad, rule, fl, b, m, "%s rebuilds the builder copying every other field unchanged" % m,
-                  "%s copies the wrong field: %s (a tunable configured before this call is silently replaced)" % (m, "; ".join(bad)))
+                # one instance per field: a property rests on the tunables it is about
+                rep.check(good, rule, fl, b, "%s keeps %s" % (m, name), "%s carries %s over unchanged" % (m, name) if name != fld else "%s installs its argument as %s" % (m, name),
+                          "%s sets %s = %s (a tunable configured before this call is silently replaced)" % (m, name, show(v) if v is not None else "?"))
     # public wrappers forward to the core setter with their own argument
     n = 0
     for m in list(SIMPLE_SETTERS) + list(REBUILD_SETTERS):
